@@ -1,22 +1,36 @@
 #!/bin/bash
 # usage: tools/try_mutant.sh <dir with patch.diff> "<props>" "<seeds>" [extra cardsim args]
-# Applies the patch to /repo, runs the quick checks, and ALWAYS reverts /repo afterwards.
+#
+# Runs the quick checks against cardillo WITH the seeded change.  The change is
+# applied to a private scratch worktree of /repo's HEAD (outside /repo and
+# /verif, removed afterwards) that is put first on PYTHONPATH, so /repo itself
+# is never touched and other runs are not disturbed.  Equivalent to
+#   git -C /repo apply <patch>; <checks>; git -C /repo checkout -- .
+# (use MUTANT_IN_REPO=1 for exactly that procedure).
 set -u
-DIR=$1
+DIR=$(readlink -f "$1")
 PROPS=${2:-"C14"}
 SEEDS=${3:-"1"}
 EXTRA=${4:-""}
-cd /repo || exit 2
-if ! git diff --quiet -- cardillo; then echo "/repo/cardillo is dirty; refusing"; exit 2; fi
-git apply --check "$DIR/patch.diff" || { echo "patch does not apply"; exit 2; }
-git apply "$DIR/patch.diff"
-trap 'git -C /repo checkout -- cardillo' EXIT
+if [ "${MUTANT_IN_REPO:-0}" = "1" ]; then
+  cd /repo || exit 2
+  if ! git diff --quiet -- cardillo; then echo "/repo/cardillo is dirty; refusing"; exit 2; fi
+  git apply "$DIR/patch.diff" || { echo "patch does not apply"; exit 2; }
+  trap 'git -C /repo checkout -- cardillo' EXIT
+  TREE=/repo
+else
+  TREE=$(mktemp -d /tmp/wt/eval.XXXXXX)
+  rmdir "$TREE"
+  git -C /repo worktree add -q --detach "$TREE" HEAD || exit 2
+  trap 'git -C /repo worktree remove --force "$TREE" >/dev/null 2>&1' EXIT
+  git -C "$TREE" apply "$DIR/patch.diff" || { echo "patch does not apply to HEAD"; exit 2; }
+fi
 cd /verif
 for s in $SEEDS; do
   for p in $PROPS; do
-    out=$(VERIF_SEED=$s timeout 3000 /venv/bin/python -m cardsim check $p $EXTRA 2>&1)
+    out=$(PYTHONPATH=$TREE CARDSIM_REPO=$TREE VERIF_SEED=$s CARDSIM_EVIDENCE_DIR=/tmp/wt/evidence_scratch timeout 3000 /venv/bin/python -m cardsim check $p $EXTRA 2>&1)
     rc=$?
     echo "== $p seed=$s exit=$rc"
-    echo "$out" | grep -E "^VIOLATION|^  class=|^KNOWN-FINDING|^summary|HARNESS-ERROR" | cut -c1-400 | head -12
+    echo "$out" | grep -E "^cardsim check|^VIOLATION|^  class=|^KNOWN-FINDING|^summary|HARNESS-ERROR" | cut -c1-400 | head -12
   done
 done
